@@ -35,12 +35,18 @@ class Event:
     async def event_listener(cls, event):
         """Listen callback for given event which updates any notifications."""
 
-        func_args = {
-            "trigger_type": "event",
-            "event_type": event.event_type,
-            "context": event.context,
-        }
-        func_args.update(event.data)
+        #
+        # the event data comes first: a key of the data named like one of the trigger's own
+        # variables must not replace it (the context is the parent of whatever the function does)
+        #
+        func_args = dict(event.data)
+        func_args.update(
+            {
+                "trigger_type": "event",
+                "event_type": event.event_type,
+                "context": event.context,
+            }
+        )
         await cls.update(event.event_type, func_args)
 
     @classmethod
